@@ -7,7 +7,7 @@
    Messages.  A *base* message is [type, src, round, value, pr, pv, copy]; a *full* message adds `just`, a set of
    base messages -- exactly the flat shape flatten() insists on ("bug: nested justifications"); the transport
    drops the nested justifications of justification messages (core/consensus/qbft/msg.go createMsg).
-   `copy` (1 or 2) lets a Byzantine justification LIST contain the same entry twice (the Go code works on lists and
+   `copy` (1, 2, 3, ...) lets a Byzantine justification LIST contain the same entry several times (the Go code works on lists and
    several of its checks -- uniqSource -- only matter for such duplicates); honest entries always have copy = 1.
    Values are integers, 0 is the zero value.
 
@@ -270,7 +270,7 @@ WellFormed(m) ==
   /\ \A b \in m.just : b.type # "RC" => (b.pr = 0 /\ b.pv = 0)
   /\ \A a, b \in m.just : (a.type = "RC" /\ b.type = "RC" /\ a.src = b.src /\ a.round = b.round)
                              => Norm(a) = Norm(b)                                              \* A1
-  /\ \A b \in m.just : b.copy = 2 => [b EXCEPT !.copy = 1] \in m.just
+  /\ \A b \in m.just : b.copy >= 1 /\ (b.copy > 1 => [b EXCEPT !.copy = b.copy - 1] \in m.just)    \* k-th copy needs the (k-1)-th
   /\ \A b \in m.just : b.src \in Honest => Norm(b) \in HonestSent                              \* unforgeability
 ByzSend(m) == /\ WellFormed(m) /\ msgs' = msgs \cup {m}
               /\ out' = [kind |-> "ByzSend"] /\ UNCHANGED <<st, unjust>>
